@@ -538,7 +538,11 @@ void render(Project &p) {
       // reproduce the first copy's tokens exactly (same spellings) but with this copy's ids
       auto fr = share_first[p.ast.defs[i].share];
       pr.routine(p.ast.defs[i], (int)i);
-      for (size_t k = 0; k < fr.second - fr.first && a + k < pr.out.size(); k++) pr.out[a + k].text = pr.out[fr.first + k].text;
+      // only if this copy still says the same (a reduction or a mutation may have changed one of them)
+      auto lower = [](std::string t) { for (auto &ch : t) ch = (char)tolower((unsigned char)ch); return t; };
+      bool same = pr.out.size() - a == fr.second - fr.first;
+      for (size_t k = 0; same && k < fr.second - fr.first; k++) if (lower(pr.out[a + k].text) != lower(pr.out[fr.first + k].text)) same = false;
+      if (same) for (size_t k = 0; k < fr.second - fr.first; k++) pr.out[a + k].text = pr.out[fr.first + k].text;
     } else {
       pr.routine(p.ast.defs[i], (int)i);
       if (p.ast.defs[i].share > 0) share_first[p.ast.defs[i].share] = {a, pr.out.size()};
